@@ -12,14 +12,46 @@ Record oracles : Type := mkOracles {
   (* regexp.Compile(s) succeeds *)
   o_re_ok : text -> bool;
   (* time.LoadLocation(name): the location's String(), None on error *)
-  o_load_loc : text -> option text
+  o_load_loc : text -> option text;
+  (* IEEE-754 binary64 arithmetic as Go computes it, on bit patterns *)
+  o_fadd : Z -> Z -> Z; o_fsub : Z -> Z -> Z; o_fmul : Z -> Z -> Z; o_fdiv : Z -> Z -> Z;
+  o_fmod : Z -> Z -> Z;                      (* math.Mod *)
+  o_feq : Z -> Z -> bool; o_flt : Z -> Z -> bool; o_fle : Z -> Z -> bool;
+  o_int_to_float : Z -> Z;                   (* float64(int64) *)
+  o_uint_to_float : Z -> Z;                  (* float64(uint64) *)
+  o_float_to_int : Z -> Z;                   (* int64(float64), as the target computes it *)
+  (* Regexp.MatchString: pattern, subject *)
+  o_re_match : text -> text -> bool;
+  (* time literal recognition of a string in UTC (IsTimeLiteral + ToTimeLiteral): instant in ns, None if not a time *)
+  o_parse_time : text -> option Z
 }.
+
+Definition set_re_ok (o : oracles) (f : text -> bool) : oracles :=
+  mkOracles (o_ulower o) (o_parse_float o) (o_format_float o) f (o_load_loc o)
+    (o_fadd o) (o_fsub o) (o_fmul o) (o_fdiv o) (o_fmod o) (o_feq o) (o_flt o) (o_fle o)
+    (o_int_to_float o) (o_uint_to_float o) (o_float_to_int o) (o_re_match o) (o_parse_time o).
+Definition set_load_loc (o : oracles) (f : text -> option text) : oracles :=
+  mkOracles (o_ulower o) (o_parse_float o) (o_format_float o) (o_re_ok o) f
+    (o_fadd o) (o_fsub o) (o_fmul o) (o_fdiv o) (o_fmod o) (o_feq o) (o_flt o) (o_fle o)
+    (o_int_to_float o) (o_uint_to_float o) (o_float_to_int o) (o_re_match o) (o_parse_time o).
+Definition set_re_match (o : oracles) (f : text -> text -> bool) : oracles :=
+  mkOracles (o_ulower o) (o_parse_float o) (o_format_float o) (o_re_ok o) (o_load_loc o)
+    (o_fadd o) (o_fsub o) (o_fmul o) (o_fdiv o) (o_fmod o) (o_feq o) (o_flt o) (o_fle o)
+    (o_int_to_float o) (o_uint_to_float o) (o_float_to_int o) f (o_parse_time o).
+Definition set_parse_time (o : oracles) (f : text -> option Z) : oracles :=
+  mkOracles (o_ulower o) (o_parse_float o) (o_format_float o) (o_re_ok o) (o_load_loc o)
+    (o_fadd o) (o_fsub o) (o_fmul o) (o_fdiv o) (o_fmod o) (o_feq o) (o_flt o) (o_fle o)
+    (o_int_to_float o) (o_uint_to_float o) (o_float_to_int o) (o_re_match o) f.
 
 (* for the in-Coq evaluation path: cases are restricted to inputs on which
    no oracle is consulted with a non-trivial answer *)
 Definition default_oracles : oracles :=
   {| o_ulower := fun c => c; o_parse_float := fun _ => None; o_format_float := fun _ => [];
-     o_re_ok := fun _ => true; o_load_loc := fun _ => None |}.
+     o_re_ok := fun _ => true; o_load_loc := fun _ => None;
+     o_fadd := fun _ _ => 0; o_fsub := fun _ _ => 0; o_fmul := fun _ _ => 0; o_fdiv := fun _ _ => 0;
+     o_fmod := fun _ _ => 0; o_feq := fun _ _ => false; o_flt := fun _ _ => false; o_fle := fun _ _ => false;
+     o_int_to_float := fun _ => 0; o_uint_to_float := fun _ => 0; o_float_to_int := fun _ => 0;
+     o_re_match := fun _ _ => false; o_parse_time := fun _ => None |}.
 
 (* float64 values are IEEE-754 bit patterns; all NaNs are identified with one pattern *)
 Definition nan_bits : Z := 9221120237041090561.           (* 0x7FF8000000000001 *)
